@@ -869,7 +869,14 @@ class FragmentSender(object):
 
     def callback(self, index, success):
 
-        self.acks[index] = success
+        # in best effort mode a fragment can be in flight in more than
+        # one datagram: the first result for a fragment counts
+        if self.acks[index] is None:
+            self.acks[index] = success
+
+            # run the user callback once every fragment is acked or timed out
+            if self.user_callback and None not in self.acks:
+                self.user_callback(all(self.acks))
 
     @staticmethod
     def parsePayload(payload):
